@@ -264,7 +264,7 @@ class Check(PropertyCheck):
                     "mitmproxy.net.http.http1.assemble:assemble_response"]
     trusted_base = ["CPython html.escape, textwrap.dedent, str.strip, str.encode('utf8','replace') as the primitives the model transcribes",
                     "h2/hpack framing of the HTTP/2 error response (the check decodes it with the same library)"]
-    parallel = True
+    parallel = False
 
     # ---- translator ---------------------------------------------------------------------------------------------
     def translate(self):
@@ -287,6 +287,11 @@ class Check(PropertyCheck):
     def generate(self, rng, tier):
         def fmt(status, s):
             return {"op": "fmt", "status": status, "msg_hex": hx(s.encode("utf-8", "surrogateescape") if isinstance(s, str) else s)}
+        # end-to-end grid with the fixed marker
+        for proto, scs in (("h1", H1_SCENARIOS), ("h2", H2_SCENARIOS)):
+            for sc in scs:
+                for mode in ("regular", "transparent"):
+                    yield {"op": "e2e", "proto": proto, "sc": sc, "mode": mode, "mk_hex": hx(MARK.encode()), "cut": 0}
         yield fmt(400, "")
         maxn = 3 if tier == "thorough" else 2
         for n in range(1, maxn + 1):
@@ -298,11 +303,6 @@ class Check(PropertyCheck):
                 yield fmt(400, "".join(t))
         for st in sorted(status_codes.RESPONSES) + [299, 599, 100, 999]:
             yield fmt(st, MARK)
-        # end-to-end grid with the fixed marker
-        for proto, scs in (("h1", H1_SCENARIOS), ("h2", H2_SCENARIOS)):
-            for sc in scs:
-                for mode in ("regular", "transparent"):
-                    yield {"op": "e2e", "proto": proto, "sc": sc, "mode": mode, "mk_hex": hx(MARK.encode()), "cut": 0}
         e2e_share = 0.04 if tier == "quick" else 0.02
         while True:
             if rng.chance(e2e_share):
